@@ -255,4 +255,51 @@ theorem walk_onSegs {len : Len} : ∀ (ss : List (Pt × Pt)) (d : Rat) {a b : Pt
       obtain ⟨rfl, rfl, rfl⟩ := h
       exact Or.inl ⟨le_of_lt hd, not_lt.1 hlt, rfl⟩
 
+/-! ### densify -/
+
+theorem numSegments_cast {len : Len} (hl : LenAx len) (a b : Pt) (mx : Rat) (hmx : 0 < mx) :
+    len a b / mx ≤ (numSegments len a b mx : Rat) ∧ (numSegments len a b mx : Rat) < len a b / mx + 1 := by
+  have hq : 0 ≤ len a b / mx := div_nonneg (hl.nonneg a b) (le_of_lt hmx)
+  have h1 : len a b / mx ≤ ((Rat.ceil (len a b / mx) : Int) : Rat) := Rat.le_ceil
+  have h2 : ((Rat.ceil (len a b / mx) : Int) : Rat) < len a b / mx + 1 := Rat.ceil_lt
+  have hc : (0 : Int) ≤ Rat.ceil (len a b / mx) := by
+    have : (0 : Rat) ≤ ((Rat.ceil (len a b / mx) : Int) : Rat) := le_trans hq h1
+    exact_mod_cast this
+  have e : (numSegments len a b mx : Rat) = ((Rat.ceil (len a b / mx) : Int) : Rat) := by
+    unfold numSegments
+    have := Int.toNat_of_nonneg hc
+    exact_mod_cast congrArg (fun z : Int => (z : Rat)) this
+  rw [e]; exact ⟨h1, h2⟩
+
+theorem lerp_zero (a b : Pt) : lerp a b 0 = a := by apply Pt.ext' <;> simp [lerp]
+theorem lerp_one (a b : Pt) : lerp a b 1 = b := by apply Pt.ext' <;> simp [lerp]
+
+theorem segs_map_range' (f : Nat → Pt) : ∀ (m s : Nat),
+    segs ((List.range' s (m + 1)).map f) = (List.range' s m).map (fun k => (f k, f (k + 1)))
+  | 0, s => by simp [List.range', segs]
+  | m + 1, s => by
+    have ih := segs_map_range' f m (s + 1)
+    simp only [List.range'_succ, List.map_cons, segs] at ih ⊢
+    rw [ih]
+
+theorem segs_join (xs ys : List Pt) (b : Pt) :
+    segs (xs ++ b :: ys) = segs (xs ++ [b]) ++ segs (b :: ys) := by
+  induction xs with
+  | nil => simp [segs]
+  | cons x xs ih =>
+    cases xs with
+    | nil => simp [segs]
+    | cons y ys' =>
+      simp only [List.cons_append, segs] at ih ⊢
+      rw [ih]
+
+theorem sumLen_map_const (len : Len) (c : Rat) (l : List (Pt × Pt)) (h : ∀ s ∈ l, len s.1 s.2 = c) :
+    sumLen len l = l.length * c := by
+  induction l with
+  | nil => simp [sumLen]
+  | cons s l ih =>
+    simp only [sumLen, List.length_cons]
+    rw [h s (by simp), ih (fun t ht => h t (by simp [ht]))]
+    push_cast; ring
+
 end Geo.Proofs.C15
